@@ -36,7 +36,7 @@ fn install_hook() {
                 Some(l) => {
                     // keep the path from the crate directory on: xlsx/src/import/worksheets.rs:876
                     let f = l.file();
-                    let f = match f.find("xlsx/src/").or_else(|| f.find("base/src/")) {
+                    let f = match f.find("xlsx/src/").or_else(|| f.find("base/src/")).or_else(|| f.find("library/")) {
                         Some(p) => &f[p..],
                         None => f,
                     };
